@@ -3,3 +3,5 @@ global size_of usize == 8;
 // A-std3: specifications assumed for std functions that vstd does not cover
 pub assume_specification<T: Clone>[ <[T]>::to_vec ](s: &[T]) -> (r: Vec<T>)
     ensures r@ == s@;
+pub assume_specification<T>[ Option::<T>::or ](a: Option<T>, b: Option<T>) -> (r: Option<T>)
+    ensures r == (if a is Some { a } else { b });
